@@ -60,6 +60,16 @@ Theorem parse_explain_id_fragment_gpos :
 Proof. exact parse_explain_gpos. Qed.
 Print Assumptions parse_explain_id_fragment_gpos.
 
+(* the same with GPOS3 lookups (cursive attachment: entry and exit anchors per
+   glyph, one or more subtables) in the list *)
+Theorem parse_explain_id_fragment_gpos_all :
+  forall (U : uclass) (F : font) (ll : list lookup),
+    font_wf U F = true ->
+    Forall (fun lk => gpos_lookup_wf_all F lk = true) ll ->
+    M_parse U F (M_explain_gpos U F ll) = POk ll.
+Proof. exact parse_explain_gpos_all. Qed.
+Print Assumptions parse_explain_id_fragment_gpos_all.
+
 (* nested-action lists (the "1@0 2@1" of contextual lookups): the text written
    by explainNested is read back by readNestedLookups as the same list, for
    all lists of 16-bit (lookup index, sequence index) pairs *)
